@@ -136,7 +136,6 @@ func ruleModfOrigins(w *World, r *RuleResult) {
 		r.anchorMissing("(*Decimal).Modf")
 		return
 	}
-	s := w.summary(f)
 	for _, out := range []string{"integ", "frac"} {
 		i := paramIndex(f, out)
 		if i < 0 {
@@ -144,10 +143,24 @@ func ruleModfOrigins(w *World, r *RuleResult) {
 			continue
 		}
 		key := "(*Decimal).Modf | " + out + " takes sign and form from the receiver"
-		if s.CopyFrom[i]["Negative"] == 0 && s.CopyFrom[i]["Form"] == 0 && s.Writes[i]["Negative"] && s.Writes[i]["Form"] {
-			r.ok(key, w.pos(f.Pos()), "every store of "+out+".Negative and "+out+".Form copies the receiver's field", true)
+		var bad []string
+		n := map[string]int{}
+		for _, b := range f.Blocks {
+			for _, in := range b.Instrs {
+				for _, fld := range []string{"Negative", "Form"} {
+					for _, v := range w.storedFieldValues(f, in, f.Params[i], fld, 0) {
+						n[fld]++
+						if v != "d."+fld {
+							bad = append(bad, fmt.Sprintf("%s.%s = %s at %s", out, fld, v, w.instrPos(in)))
+						}
+					}
+				}
+			}
+		}
+		if len(bad) == 0 && n["Negative"] > 0 && n["Form"] > 0 {
+			r.ok(key, w.pos(f.Pos()), fmt.Sprintf("every value stored into %s.Negative (%d sites) and %s.Form (%d sites), directly or through helpers, is the receiver's field", out, n["Negative"], out, n["Form"]), true)
 		} else {
-			r.bad(key, w.pos(f.Pos()), fmt.Sprintf("%s.Negative/Form are not always the receiver's (copy sources: Negative←param %d, Form←param %d; written: %v)", out, s.CopyFrom[i]["Negative"], s.CopyFrom[i]["Form"], sortedFieldSet(s.Writes[i])))
+			r.bad(key, w.pos(f.Pos()), fmt.Sprintf("%s.Negative/Form are not always the receiver's: %s (stores found: %v)", out, strings.Join(uniqStrings(bad), "; "), n))
 		}
 	}
 	// exponent of the two parts on the splitting path (the QuoRem block)
@@ -300,17 +313,9 @@ func ruleNumDigitsSymmetry(w *World, r *RuleResult) {
 			if !strings.HasSuffix(tgt, "."+a.border) {
 				continue
 			}
-			// guard: b.Sign() == a.sign
-			g := false
-			for _, gd := range guardsAt(c.Block()) {
-				if bo, isB := gd.Cond.(*ssa.BinOp); isB && bo.Op == token.EQL && gd.Val {
-					if call, isC := bo.X.(*ssa.Call); isC && w.calleeName(call) == "(*BigInt).Sign" {
-						if k, isK := bo.Y.(*ssa.Const); isK && ci(k) == a.sign {
-							g = true
-						}
-					}
-				}
-			}
+			// guard: the dominating tests on b.Sign() (and b.BitLen() != 0) leave exactly this sign
+			poss := w.possibleSigns(f, c.Block(), f.Params[0])
+			g := len(poss) == 1 && poss[0] == a.sign
 			// inside edge returns the entry's digits: cmp <op> 0 true → return val.digits
 			inside := false
 			if refs := c.Referrers(); refs != nil {
@@ -374,4 +379,64 @@ func ruleNumDigitsSymmetry(w *World, r *RuleResult) {
 	} else {
 		r.bad(key, w.pos(f.Pos()), "the >128-bit path does not compare |b| with 10^n (negative values would be miscounted or crash)")
 	}
+}
+
+// possibleSigns evaluates the dominating comparisons of v.Sign() with
+// constants over the finite domain {-1, 0, +1}; a dominating
+// v.BitLen() == 0 test that failed excludes 0.
+func (w *World) possibleSigns(f *ssa.Function, b *ssa.BasicBlock, v ssa.Value) []int64 {
+	ok := map[int64]bool{-1: true, 0: true, 1: true}
+	for _, g := range guardsAt(b) {
+		bo, isB := g.Cond.(*ssa.BinOp)
+		if !isB {
+			continue
+		}
+		call, isC := bo.X.(*ssa.Call)
+		k, isK := bo.Y.(*ssa.Const)
+		if !isC || !isK || len(call.Common().Args) == 0 || call.Common().Args[0] != v {
+			// BitLen may have been stored in a local first: bl == 0
+			if isK && ci(k) == 0 && (bo.Op == token.EQL && !g.Val || bo.Op == token.NEQ && g.Val) {
+				if c2, ok2 := bo.X.(*ssa.Call); ok2 && w.calleeName(c2) == "(*BigInt).BitLen" && c2.Common().Args[0] == v {
+					delete(ok, 0)
+				}
+			}
+			continue
+		}
+		switch w.calleeName(call) {
+		case "(*BigInt).BitLen":
+			if ci(k) == 0 && (bo.Op == token.EQL && !g.Val || bo.Op == token.NEQ && g.Val) {
+				delete(ok, 0)
+			}
+		case "(*BigInt).Sign":
+			for _, sv := range []int64{-1, 0, 1} {
+				var holds bool
+				switch bo.Op {
+				case token.EQL:
+					holds = sv == ci(k)
+				case token.NEQ:
+					holds = sv != ci(k)
+				case token.LSS:
+					holds = sv < ci(k)
+				case token.LEQ:
+					holds = sv <= ci(k)
+				case token.GTR:
+					holds = sv > ci(k)
+				case token.GEQ:
+					holds = sv >= ci(k)
+				default:
+					continue
+				}
+				if holds != g.Val {
+					delete(ok, sv)
+				}
+			}
+		}
+	}
+	var out []int64
+	for _, sv := range []int64{-1, 0, 1} {
+		if ok[sv] {
+			out = append(out, sv)
+		}
+	}
+	return out
 }
